@@ -61,16 +61,17 @@ def startDict (σ : Nat → FV → FV) (u : Nat) (L : Level) (tick : Nat) (sp : 
       "action_type" (.str sp.atype)).set "task_level" (.lvl L))
 
 /-- the end message: success fields (serialized) or the exception's class and text -/
-def endDict (env : Env) (σ : Nat → FV → FV) (u : Nat) (L : Level) (tick : Nat) (sp : Spec) (succ : Fields) :
-    Outcome → Msg
+def endDict (env : Env) (σ : Nat → FV → FV) (u : Nat) (L : Level) (tick : Nat) (atype : String)
+    (sers : Option (List (String × Nat) × List (String × Nat))) (succ : Fields) : Outcome → Msg
   | .ok =>
-    serOpt σ (sp.sers.map (·.2))
+    serOpt σ (sers.map (·.2))
       (((((succ.set "action_status" (.str "succeeded")).set "timestamp" (.ts tick)).set "task_uuid" (.uuid u)).set
-        "action_type" (.str sp.atype)).set "task_level" (.lvl L))
+        "action_type" (.str atype)).set "task_level" (.lvl L))
   | .raised e =>
-    (((((([] : Fields).set "exception" (.str (e.qual env))).set "reason" (.str (e.safeStr env))).set
-      "action_status" (.str "failed")).set "timestamp" (.ts tick)).set "task_uuid" (.uuid u)).set
-        "action_type" (.str sp.atype) |>.set "task_level" (.lvl L)
+    Fields.set (Fields.set (Fields.set (Fields.set
+      (Fields.set (Fields.set (Fields.set [] "exception" (.str (e.qual env))) "reason" (.str (e.safeStr env)))
+        "action_status" (.str "failed"))
+      "timestamp" (.ts tick)) "task_uuid" (.uuid u)) "action_type" (.str atype)) "task_level" (.lvl L)
   | .stuck => []
 
 /-- what `write_traceback()` logs for exception `e` (no extractor registered) -/
@@ -114,7 +115,7 @@ def T.dicts (env : Env) (σ : Nat → FV → FV) (u : Nat) : T → Level → Lis
   | .leaf tick ms, L => [leafDict σ u L tick ms]
   | .node sp st et succ res kids, L =>
     startDict σ u (L ++ [1]) st sp ::
-      (F.dicts env σ u kids L 2 ++ [endDict env σ u (L ++ [kids.len + 2]) et sp succ res])
+      (F.dicts env σ u kids L 2 ++ [endDict env σ u (L ++ [kids.len + 2]) et sp.atype sp.sers succ res])
 def F.dicts (env : Env) (σ : Nat → FV → FV) (u : Nat) : F → Level → Nat → List Msg
   | .nil, _, _ => []
   | .own t r, L, k => T.dicts env σ u t (L ++ [k]) ++ F.dicts env σ u r L (k + 1)
@@ -128,21 +129,19 @@ theorem F.dicts_sep (env : Env) (σ : Nat → FV → FV) (u u' : Nat) (t : T) (r
     F.dicts env σ u (.sep u' t r) L k = T.top env σ u' t ++ F.dicts env σ u r L k := by
   simp [F.dicts, T.top]
 
-theorem F.len_append (f g : F) : (f.append g).len = f.len + g.len := by
-  induction f with
-  | nil => simp [F.append, F.len]
-  | own t r ih => simp [F.append, F.len, ih]; omega
-  | sep u t r ih => simp [F.append, F.len, ih]
+theorem F.len_append : ∀ (f g : F), (f.append g).len = f.len + g.len
+  | .nil, g => by simp [F.append, F.len]
+  | .own t r, g => by simp [F.append, F.len, F.len_append r g]; omega
+  | .sep u t r, g => by simp [F.append, F.len, F.len_append r g]
 
-theorem F.dicts_append (env : Env) (σ : Nat → FV → FV) (u : Nat) (f g : F) (L : Level) (k : Nat) :
-    F.dicts env σ u (f.append g) L k = F.dicts env σ u f L k ++ F.dicts env σ u g L (k + f.len) := by
-  induction f generalizing k with
-  | nil => simp [F.append, F.dicts, F.len]
-  | own t r ih =>
+theorem F.dicts_append (env : Env) (σ : Nat → FV → FV) (u : Nat) : ∀ (f g : F) (L : Level) (k : Nat),
+    F.dicts env σ u (f.append g) L k = F.dicts env σ u f L k ++ F.dicts env σ u g L (k + f.len)
+  | .nil, g, L, k => by simp [F.append, F.dicts, F.len]
+  | .own t r, g, L, k => by
     have e : k + 1 + r.len = k + (r.len + 1) := by omega
-    simp [F.append, F.dicts, F.len, ih, e]
-  | sep u' t r ih =>
-    rw [F.append, F.dicts_sep, F.dicts_sep, ih]
+    simp [F.append, F.dicts, F.len, F.dicts_append env σ u r g L (k + 1), e]
+  | .sep u' t r, g, L, k => by
+    rw [F.append, F.dicts_sep, F.dicts_sep, F.dicts_append env σ u r g L k]
     simp [F.len]
 
 /-! ## The denotation -/
@@ -208,7 +207,385 @@ def denB (env : Env) (cur : Option Exc) (inAct : Bool) : Block → DS → Fields
     | _ => r
 end
 
+/-! ## Effects of the primitives under the fragment's hypotheses -/
+
+/-- serializers are functions that do not raise, no exception extractor is registered, the
+destinations in `ds` never raise -/
+structure EnvOK (env : Env) (σ : Nat → FV → FV) (ds : List Nat) : Prop where
+  ser : ∀ sid v k, env.serialize sid v k = .ok (σ sid v)
+  ext : ∀ c, env.extractor c = none
+  healthy : ∀ d ∈ ds, ∀ k, env.destFails d k = none
+
+/-- `w'` is `w` with the action table `acts`, `dt` more clock reads, `du` more uuids and `out`
+staged; context, destinations, global fields untouched -/
+structure Eff (w w' : World) (acts : List Act) (dt du : Nat) (out : List Msg) : Prop where
+  acts : w'.acts = acts
+  ctx : w'.ctx = w.ctx
+  tick : w'.tick = w.tick + dt
+  nu : w'.nextUuid = w.nextUuid + du
+  dests : w'.dests = w.dests
+  globals : w'.globals = w.globals
+  stage : w'.stage = w.stage ++ out
+
+theorem Eff.refl (w : World) : Eff w w w.acts 0 0 [] := ⟨rfl, rfl, rfl, rfl, rfl, rfl, by simp⟩
+
+theorem Eff.trans {a b c : World} {x y : List Act} {t1 t2 u1 u2 : Nat} {o1 o2 : List Msg}
+    (h1 : Eff a b x t1 u1 o1) (h2 : Eff b c y t2 u2 o2) : Eff a c y (t1 + t2) (u1 + u2) (o1 ++ o2) :=
+  ⟨h2.acts, h2.ctx.trans h1.ctx, by rw [h2.tick, h1.tick]; omega, by rw [h2.nu, h1.nu]; omega,
+   h2.dests.trans h1.dests, h2.globals.trans h1.globals, by rw [h2.stage, h1.stage, List.append_assoc]⟩
+
+/-- the world is in the fragment's configuration: only destinations from `ds`, no global fields -/
+structure WOK (w : World) (ds : List Nat) : Prop where
+  dests : ∀ d ∈ w.dests, d ∈ ds
+  globals : w.globals = []
+
+theorem WOK.ofEff {w w' : World} {ds : List Nat} {x : List Act} {t u : Nat} {o : List Msg}
+    (h : WOK w ds) (e : Eff w w' x t u o) : WOK w' ds :=
+  ⟨by rw [e.dests]; exact h.dests, by rw [e.globals]; exact h.globals⟩
+
+theorem fanOut_core (env : Env) (m : Msg) (l : List Nat) (hh : ∀ d ∈ l, ∀ k, env.destFails d k = none) (w : World) :
+    (World.fanOut env w m l).2 = [] ∧ Eff w (World.fanOut env w m l).1 w.acts 0 0 [] := by
+  induction l generalizing w with
+  | nil => exact ⟨rfl, Eff.refl w⟩
+  | cons d l ih =>
+    simp only [World.fanOut]
+    have hd : env.destFails d ((lookupNat w.destCalls d).getD 0) = none := hh d List.mem_cons_self _
+    obtain ⟨h1, h2⟩ := ih (fun d' hd' => hh d' (List.mem_cons_of_mem _ hd')) (w.callDest env d m).1
+    have hc : (w.callDest env d m).2 = none := by simp [World.callDest, hd]
+    have he : Eff w (w.callDest env d m).1 w.acts 0 0 [] := by
+      simp only [World.callDest, hd]
+      exact ⟨rfl, rfl, rfl, rfl, rfl, rfl, by simp⟩
+    refine ⟨by simp [h1, hc], ?_⟩
+    have := he.trans h2
+    rw [he.acts] at this
+    simpa using this
+
+theorem eff_send {env : Env} {σ : Nat → FV → FV} {ds : List Nat} (H : EnvOK env σ ds) (w : World) (hw : WOK w ds)
+    (m : Msg) : Eff w (w.send env m) w.acts 0 0 [m] := by
+  have hm : Fields.update m w.globals = m := by rw [hw.globals]; rfl
+  unfold World.send World.deliver
+  simp only [hm]
+  split
+  · obtain ⟨h1, h2⟩ := fanOut_core env m w.dests (fun d hd => H.healthy d (hw.dests d hd))
+      { w with stage := w.stage ++ [m] }
+    simp only [h1, ite_self, World.reportAll]
+    exact ⟨h2.acts, h2.ctx, h2.tick, h2.nu, h2.dests, h2.globals, by rw [h2.stage]; simp⟩
+  · simp only [World.reportAll]
+    exact ⟨rfl, rfl, rfl, rfl, rfl, rfl, rfl⟩
+
+/-- `_MessageSerializer.serialize` with function serializers on a dict that has every declared key -/
+theorem serializeFields_ok {env : Env} {σ : Nat → FV → FV} {ds : List Nat} (H : EnvOK env σ ds)
+    (ss : List (String × Nat)) (w : World) (m : Msg) (hp : present ss m = true) :
+    ∃ k, serializeFields env w ss m = ({ w with serCalls := w.serCalls + k }, .ok (applyT σ ss m)) := by
+  induction ss generalizing w m with
+  | nil => exact ⟨0, rfl⟩
+  | cons p r ih =>
+    obtain ⟨key, sid⟩ := p
+    simp only [present, List.all_cons, Bool.and_eq_true] at hp
+    obtain ⟨h1, h2⟩ := hp
+    cases hv : m.get? key with
+    | none => simp [hv] at h1
+    | some v =>
+      have hp' : present r (m.set key (σ sid v)) = true := by
+        simp only [present, List.all_eq_true] at h2 ⊢
+        intro q hq
+        have := h2 q hq
+        by_cases e : q.1 = key
+        · rw [e, Fields.get?_set_self]; rfl
+        · rw [Fields.get?_set_ne _ _ _ _ e]; exact this
+      obtain ⟨k, hk⟩ := ih { w with serCalls := w.serCalls + 1 } (m.set key (σ sid v)) hp'
+      refine ⟨1 + k, ?_⟩
+      simp only [serializeFields, hv, H.ser, applyT, hk]
+      simp [Nat.add_assoc]
+
+theorem eff_loggerWrite {env : Env} {σ : Nat → FV → FV} {ds : List Nat} (H : EnvOK env σ ds) (w : World) (hw : WOK w ds)
+    (m : Msg) (sers : Option (List (String × Nat))) (hp : presentOpt sers m = true) :
+    Eff w (w.loggerWrite env m sers) w.acts 0 0 [serOpt σ sers m] := by
+  cases sers with
+  | none => exact eff_send H w hw m
+  | some ss =>
+    obtain ⟨k, hk⟩ := serializeFields_ok H ss w m hp
+    simp only [World.loggerWrite, hk, serOpt]
+    have hw' : WOK ({ w with serCalls := w.serCalls + k } : World) ds := ⟨hw.dests, hw.globals⟩
+    have := eff_send H ({ w with serCalls := w.serCalls + k } : World) hw' (applyT σ ss m)
+    exact ⟨this.acts, this.ctx, this.tick, this.nu, this.dests, this.globals, this.stage⟩
+
+theorem present_set (ss : List (String × Nat)) (m : Fields) (k : String) (v : FV) (h : present ss m = true) :
+    present ss (m.set k v) = true := by
+  simp only [present, List.all_eq_true] at h ⊢
+  intro q hq
+  by_cases e : q.1 = k
+  · rw [e, Fields.get?_set_self]; rfl
+  · rw [Fields.get?_set_ne _ _ _ _ e]; exact h q hq
+
+theorem presentOpt_set (sers : Option (List (String × Nat))) (m : Fields) (k : String) (v : FV)
+    (h : presentOpt sers m = true) : presentOpt sers (m.set k v) = true := by
+  cases sers with
+  | none => rfl
+  | some ss => exact present_set ss m k v h
+
+theorem firstExtractor_none {env : Env} (h : ∀ c, env.extractor c = none) (l : List Nat) : firstExtractor env l = none := by
+  induction l with
+  | nil => rfl
+  | cons c cs ih => simp [firstExtractor, h, ih]
+
+theorem getFields_none {env : Env} (h : ∀ c, env.extractor c = none) (fuel : Nat) (w : World) (e : Exc) :
+    World.getFields env fuel w e = (w, []) := by
+  cases fuel with
+  | zero => rfl
+  | succ n => simp [World.getFields, firstExtractor_none h]
+
+theorem lt_of_get {w : World} {h : Nat} {a : Act} (ha : w.acts[h]? = some a) : h < w.acts.length := by
+  rcases Nat.lt_or_ge h w.acts.length with hl | hl
+  · exact hl
+  · rw [List.getElem?_eq_none hl] at ha; cases ha
+
+section prims
+variable {env : Env} {σ : Nat → FV → FV} {ds : List Nat} (H : EnvOK env σ ds)
+include H
+
+/-- `Logger.write` after steps that staged nothing -/
+theorem Eff.thenWrite {w w1 : World} {A : List Act} {dt du : Nat} (e : Eff w w1 A dt du []) (hw : WOK w ds)
+    (m : Msg) (sers : Option (List (String × Nat))) (hp : presentOpt sers m = true) :
+    Eff w (w1.loggerWrite env m sers) A dt du [serOpt σ sers m] := by
+  have := e.trans (eff_loggerWrite H w1 (hw.ofEff e) m sers hp)
+  rw [e.acts] at this
+  simpa using this
+
+theorem Eff.thenWrite' {w w1 : World} {A : List Act} {dt du : Nat} (e : Eff w w1 A dt du []) (hw : WOK w ds)
+    (m : Msg) (sers : Option (List (String × Nat))) (hp : presentOpt sers m = true) (out : Msg)
+    (ho : out = serOpt σ sers m) : Eff w (w1.loggerWrite env m sers) A dt du [out] :=
+  ho ▸ Eff.thenWrite H e hw m sers hp
+
+/-- a message logged while action `c` is current -/
+theorem eff_log_in (w : World) (hw : WOK w ds) (c : Nat) (a : Act) (hc : w.ctx = some c) (ha : w.acts[c]? = some a)
+    (ms : MSpec) (hp : presentOpt ms.sers ms.fields = true) :
+    Eff w (w.logMessage env ms) (w.acts.set c { a with last := a.last + 1 }) 1 0
+      [leafDict σ a.uuid (a.level ++ [a.last + 1]) w.tick ms] := by
+  have hp' := presentOpt_set _ _ "message_type" (.str ms.mtype) (presentOpt_set _ _ "task_level" (.lvl (a.level ++ [a.last + 1]))
+    (presentOpt_set _ _ "task_uuid" (.uuid a.uuid) (presentOpt_set _ _ "timestamp" (.ts w.tick) hp)))
+  simp only [World.logMessage, World.currentOrFresh, hc, World.buildLog, World.clock, World.nextLevel, ha,
+    Option.map_some, Option.getD_some]
+  refine Eff.thenWrite H (A := w.acts.set c { a with last := a.last + 1 }) (dt := 1) (du := 0) ?_ hw _ _ hp'
+  exact ⟨rfl, hc.symm, rfl, rfl, rfl, rfl, by simp⟩
+
+/-- a message logged outside any action: a fresh one-message task -/
+theorem eff_log_out (w : World) (hw : WOK w ds) (hc : w.ctx = none) (ms : MSpec)
+    (hp : presentOpt ms.sers ms.fields = true) :
+    Eff w (w.logMessage env ms) (w.acts ++ [{ uuid := w.nextUuid, level := [], last := 1 }]) 1 1
+      [leafDict σ w.nextUuid [1] w.tick ms] := by
+  have hp' := presentOpt_set _ _ "message_type" (.str ms.mtype) (presentOpt_set _ _ "task_level" (.lvl [1])
+    (presentOpt_set _ _ "task_uuid" (.uuid w.nextUuid) (presentOpt_set _ _ "timestamp" (.ts w.tick) hp)))
+  simp only [World.logMessage, World.currentOrFresh, hc, World.freshAction, World.buildLog, World.clock, World.nextLevel,
+    List.getElem?_concat_length, Option.map_some, Option.getD_some, List.nil_append, Nat.zero_add]
+  refine Eff.thenWrite H (A := w.acts ++ [{ uuid := w.nextUuid, level := [], last := 1 }]) (dt := 1) (du := 1) ?_ hw _ _ hp'
+  exact ⟨by simp, hc.symm, rfl, rfl, rfl, rfl, by simp⟩
+
+theorem writeTraceback_eq (w : World) (e : Exc) : w.writeTraceback env e = w.logMessage env (tbSpec env e) := by
+  simp only [World.writeTraceback, getFields_none H.ext, World.logNoSer, World.logMessage, World.loggerWrite, tbSpec]
+
+/-- `Action._start` of action `h` -/
+theorem eff_startRec (w : World) (hw : WOK w ds) (h : Nat) (a : Act) (ha : w.acts[h]? = some a) (fields : Fields)
+    (hp : presentOpt (a.sers.map (·.1)) fields = true) :
+    Eff w (w.startRec env h fields) (w.acts.set h { a with last := a.last + 1 }) 1 0
+      [startDict σ a.uuid (a.level ++ [a.last + 1]) w.tick { atype := a.atype, fields := fields, sers := a.sers }] := by
+  have hp' := presentOpt_set _ _ "task_level" (.lvl (a.level ++ [a.last + 1])) (presentOpt_set _ _ "action_type" (.str a.atype)
+    (presentOpt_set _ _ "task_uuid" (.uuid a.uuid) (presentOpt_set _ _ "timestamp" (.ts w.tick)
+    (presentOpt_set _ _ "action_status" (.str "started") hp))))
+  simp only [World.startRec, ha, World.clock, World.nextLevel]
+  refine Eff.thenWrite H (A := w.acts.set h { a with last := a.last + 1 }) (dt := 1) (du := 0) ?_ hw _ _ hp'
+  exact ⟨rfl, rfl, rfl, rfl, rfl, rfl, by simp⟩
+
+/-- `start_action` inside action `p`: `p.child()` + `_start` -/
+theorem eff_start_child (w : World) (hw : WOK w ds) (p : Nat) (pa : Act) (hc : w.ctx = some p) (ha : w.acts[p]? = some pa)
+    (sp : Spec) (hp : presentOpt (sp.sers.map (·.1)) sp.fields = true) :
+    (w.startAction env false sp).2 = w.acts.length ∧
+    Eff w (w.startAction env false sp).1
+      (w.acts.set p { pa with last := pa.last + 1 } ++
+        [{ uuid := pa.uuid, level := pa.level ++ [pa.last + 1], last := 1, atype := sp.atype, sers := sp.sers }]) 1 0
+      [startDict σ pa.uuid (pa.level ++ [pa.last + 1] ++ [1]) w.tick sp] := by
+  have hlt := lt_of_get ha
+  simp only [World.startAction, Bool.false_eq_true, if_false, hc, ha, World.nextLevel, List.length_set]
+  refine ⟨trivial, ?_⟩
+  have e := eff_startRec H
+    ({ w with
+        acts := w.acts.set p { pa with last := pa.last + 1 } ++
+          [{ uuid := pa.uuid, level := pa.level ++ [pa.last + 1], atype := sp.atype, sers := sp.sers }]
+        ctx := some p
+        slots := w.slots ++ [(p, pa.last + 1)] } : World) ⟨hw.dests, hw.globals⟩ w.acts.length
+    { uuid := pa.uuid, level := pa.level ++ [pa.last + 1], atype := sp.atype, sers := sp.sers }
+    (by simp) sp.fields hp
+  exact ⟨by rw [e.acts]; simp, e.ctx.trans hc.symm, e.tick, e.nu, e.dests, e.globals, e.stage⟩
+
+/-- `start_task`, or `start_action` outside any action: a fresh tree -/
+theorem eff_start_fresh (w : World) (hw : WOK w ds) (task : Bool) (hc : task = true ∨ w.ctx = none)
+    (sp : Spec) (hp : presentOpt (sp.sers.map (·.1)) sp.fields = true) :
+    (w.startAction env task sp).2 = w.acts.length ∧
+    Eff w (w.startAction env task sp).1
+      (w.acts ++ [{ uuid := w.nextUuid, level := [], last := 1, atype := sp.atype, sers := sp.sers }]) 1 1
+      [startDict σ w.nextUuid [1] w.tick sp] := by
+  have hn : (if task = true then none else w.ctx) = none := by
+    rcases hc with h | h
+    · simp [h]
+    · simp [h]
+  simp only [World.startAction, hn, World.freshAction]
+  refine ⟨trivial, ?_⟩
+  have e := eff_startRec H
+    ({ w with
+        acts := w.acts ++ [{ uuid := w.nextUuid, level := [], atype := sp.atype, sers := sp.sers }]
+        nextUuid := w.nextUuid + 1 } : World) ⟨hw.dests, hw.globals⟩ w.acts.length
+    { uuid := w.nextUuid, level := [], atype := sp.atype, sers := sp.sers }
+    (by simp) sp.fields hp
+  exact ⟨by rw [e.acts]; simp, e.ctx, e.tick, e.nu, e.dests, e.globals, e.stage⟩
+
+/-- `Action.finish(exception)` of an unfinished action -/
+theorem eff_finish (w : World) (hw : WOK w ds) (h : Nat) (a : Act) (ha : w.acts[h]? = some a) (hf : a.finished = false)
+    (res : Outcome) (hres : res ≠ .stuck) (hp : res = .ok → presentOpt (a.sers.map (·.2)) a.succ = true) :
+    Eff w (w.finishRec env h (outcomeExc res)) (w.acts.set h { a with finished := true, last := a.last + 1 }) 1 0
+      [endDict env σ a.uuid (a.level ++ [a.last + 1]) w.tick a.atype a.sers a.succ res] := by
+  have hlt := lt_of_get ha
+  cases res with
+  | stuck => exact absurd rfl hres
+  | ok =>
+    have hp' := presentOpt_set _ _ "task_level" (.lvl (a.level ++ [a.last + 1])) (presentOpt_set _ _ "action_type" (.str a.atype)
+      (presentOpt_set _ _ "task_uuid" (.uuid a.uuid) (presentOpt_set _ _ "timestamp" (.ts w.tick)
+      (presentOpt_set _ _ "action_status" (.str "succeeded") (hp rfl)))))
+    simp only [World.finishRec, ha, hf, outcomeExc, World.clock, World.nextLevel, List.getElem?_set_self hlt,
+      Bool.false_eq_true, if_false, endDict]
+    refine Eff.thenWrite H (A := w.acts.set h { a with finished := true, last := a.last + 1 }) (dt := 1) (du := 0) ?_ hw _ _ hp'
+    exact ⟨by simp, rfl, rfl, rfl, rfl, rfl, by simp⟩
+  | raised e =>
+    simp only [World.finishRec, ha, hf, outcomeExc, getFields_none H.ext, World.clock, World.nextLevel,
+      List.getElem?_set_self hlt, Bool.false_eq_true, if_false, endDict]
+    have hs : ∀ m : Msg, serOpt σ (a.sers.map (fun _ => ([] : List (String × Nat)))) m = m := by
+      intro m; cases a.sers <;> rfl
+    have hp' : ∀ m : Msg, presentOpt (a.sers.map (fun _ => ([] : List (String × Nat)))) m = true := by
+      intro m; cases a.sers <;> rfl
+    refine Eff.thenWrite' H (A := w.acts.set h { a with finished := true, last := a.last + 1 }) (dt := 1) (du := 0)
+      ?_ hw _ _ (hp' _) _ (hs _).symm
+    exact ⟨by simp, rfl, rfl, rfl, rfl, rfl, by simp⟩
+
+end prims
+
+/-! ## The emission lemma -/
+
+/-- identity of an action: what never changes in its record -/
+structure AI where
+  uuid : Nat
+  level : Level
+  atype : String
+  sers : Option (List (String × Nat) × List (String × Nat))
+
+/-- the record of an unfinished action that has handed out `n` positions and collected success fields `s` -/
+def AI.act (i : AI) (n : Nat) (s : Fields) : Act :=
+  { uuid := i.uuid, level := i.level, last := n, finished := false, succ := s, atype := i.atype, sers := i.sers }
+
+/-- before: action `c` is current and unfinished, the counters are `d` -/
+structure Pre (ds : List Nat) (w : World) (c : Nat) (i : AI) (n : Nat) (s : Fields) (d : DS) : Prop where
+  wok : WOK w ds
+  good : w.acts[c]? = some (i.act n s)
+  ctx : w.ctx = some c
+  tick : w.tick = d.tick
+  nu : w.nextUuid = d.nu
+
+/-- after running something whose denotation is `r` inside action `c` -/
+structure Post (env : Env) (σ : Nat → FV → FV) (ds : List Nat) (w w' : World) (c : Nat) (i : AI) (n : Nat) (r : R) : Prop where
+  /-- exactly these dicts were staged, in this order -/
+  stage : w'.stage = w.stage ++ F.dicts env σ i.uuid r.f i.level (n + 1)
+  /-- the action's counter advanced by the number of direct items; it is still unfinished -/
+  good : w'.acts[c]? = some (i.act (n + r.f.len) r.s)
+  /-- other actions are untouched -/
+  frame : ∀ h, h < w.acts.length → h ≠ c → w'.acts[h]? = w.acts[h]?
+  grow : w.acts.length ≤ w'.acts.length
+  ctx : w'.ctx = w.ctx
+  tick : w'.tick = r.ds.tick
+  nu : w'.nextUuid = r.ds.nu
+  wok : WOK w' ds
+
+theorem Post.pre {env : Env} {σ : Nat → FV → FV} {ds : List Nat} {w w' : World} {c : Nat} {i : AI} {n : Nat} {r : R}
+    (p : Post env σ ds w w' c i n r) (hc : w.ctx = some c) : Pre ds w' c i (n + r.f.len) r.s r.ds :=
+  ⟨p.wok, p.good, p.ctx.trans hc, p.tick, p.nu⟩
+
+theorem Post.trans' {env : Env} {σ : Nat → FV → FV} {ds : List Nat} {w w1 w2 : World} {c : Nat} {i : AI} {n : Nat}
+    {r1 r2 : R} (h1 : Post env σ ds w w1 c i n r1) (h2 : Post env σ ds w1 w2 c i (n + r1.f.len) r2) (b : Bool) :
+    Post env σ ds w w2 c i n { f := r1.f.append r2.f, out := r2.out, s := r2.s, ds := r2.ds, wf := b } := by
+  refine ⟨?_, ?_, ?_, Nat.le_trans h1.grow h2.grow, h2.ctx.trans h1.ctx, h2.tick, h2.nu, h2.wok⟩
+  · have e : n + r1.f.len + 1 = n + 1 + r1.f.len := by omega
+    rw [h2.stage, h1.stage, F.dicts_append, List.append_assoc, e]
+  · have := h2.good
+    rw [F.len_append, ← Nat.add_assoc]; exact this
+  · intro h hh hne
+    rw [h2.frame h (Nat.lt_of_lt_of_le hh h1.grow) hne, h1.frame h hh hne]
+
+/-- nothing happened (`raise`, `probe`) -/
+theorem Post.same {env : Env} {σ : Nat → FV → FV} {ds : List Nat} {w w' : World} {c : Nat} {i : AI} {n : Nat} {s : Fields} {d : DS}
+    (pre : Pre ds w c i n s d) (ha : w'.acts = w.acts) (hs : w'.stage = w.stage) (hc : w'.ctx = w.ctx) (ht : w'.tick = w.tick)
+    (hn : w'.nextUuid = w.nextUuid) (hd : w'.dests = w.dests) (hg : w'.globals = w.globals) (o : Outcome) (b : Bool) :
+    Post env σ ds w w' c i n { f := .nil, out := o, s := s, ds := d, wf := b } :=
+  ⟨by simp [F.dicts, hs], by simpa [F.len, ha] using pre.good, fun h _ _ => by rw [ha], Nat.le_of_eq (by rw [ha]), hc, ht.trans pre.tick,
+   hn.trans pre.nu, ⟨by rw [hd]; exact pre.wok.dests, by rw [hg]; exact pre.wok.globals⟩⟩
+
+/-- what the induction establishes for a statement / block with denotation `r` -/
+def Emits (env : Env) (σ : Nat → FV → FV) (ds : List Nat) (run : World → World × Outcome) (den : DS → Fields → R) : Prop :=
+  ∀ (w : World) (c : Nat) (i : AI) (n : Nat) (s : Fields) (d : DS), Pre ds w c i n s d → (den d s).wf = true →
+    Post env σ ds w (run w).1 c i n (den d s) ∧ (run w).2 = (den d s).out ∧ (den d s).out ≠ .stuck
+
+/-- the part of `with <new action>:` after the action `h` has been created and started:
+enter, body, exit, `finish`.  `A` = the action table before `h` was appended. -/
+theorem run_action {env : Env} {σ : Nat → FV → FV} {ds : List Nat} (H : EnvOK env σ ds) {run : World → World × Outcome}
+    {den : DS → Fields → R} (hb : Emits env σ ds run den) (W1 : World) (A : List Act) (i' : AI) (d1 : DS)
+    (hw : WOK W1 ds) (hA : W1.acts = A ++ [i'.act 1 []]) (ht : W1.tick = d1.tick) (hn : W1.nextUuid = d1.nu)
+    (hwf : (den d1 []).wf = true)
+    (hps : (den d1 []).out = .ok → presentOpt (i'.sers.map (·.2)) (den d1 []).s = true) :
+    let W2 := (withBlock env W1 A.length run).1
+    let rb := den d1 []
+    W2.stage = W1.stage ++ (F.dicts env σ i'.uuid rb.f i'.level 2 ++
+      [endDict env σ i'.uuid (i'.level ++ [rb.f.len + 2]) rb.ds.tick i'.atype i'.sers rb.s rb.out]) ∧
+    (∀ h, h < A.length → W2.acts[h]? = A[h]?) ∧ A.length + 1 ≤ W2.acts.length ∧ W2.ctx = W1.ctx ∧
+    W2.tick = rb.ds.tick + 1 ∧ W2.nextUuid = rb.ds.nu ∧ WOK W2 ds ∧
+    (withBlock env W1 A.length run).2 = rb.out ∧ rb.out ≠ .stuck := by
+  intro W2 rb
+  have pre : Pre ds ({ W1 with ctx := some A.length } : World) A.length i' 1 [] d1 :=
+    ⟨⟨hw.dests, hw.globals⟩, by simp [hA], rfl, ht, hn⟩
+  obtain ⟨post, hout, hns⟩ := hb _ _ _ _ _ _ pre hwf
+  cases hrun : run ({ W1 with ctx := some A.length } : World) with
+  | mk Wb ob =>
+  rw [hrun] at post hout
+  simp only at post hout
+  have hW2 : W2 = World.finishRec env ({ Wb with ctx := W1.ctx } : World) A.length (outcomeExc rb.out) := by
+    simp only [W2, withBlock, hrun, hout, rb]
+  have e1 : 1 + rb.f.len + 1 = rb.f.len + 2 := by omega
+  have e : Eff ({ Wb with ctx := W1.ctx } : World) W2 (Wb.acts.set A.length { i'.act (1 + rb.f.len) rb.s with finished := true, last := 1 + rb.f.len + 1 }) 1 0
+      [endDict env σ i'.uuid (i'.level ++ [rb.f.len + 2]) rb.ds.tick i'.atype i'.sers rb.s rb.out] := by
+    have := eff_finish H ({ Wb with ctx := W1.ctx } : World) ⟨post.wok.dests, post.wok.globals⟩ A.length
+      (i'.act (1 + rb.f.len) rb.s) post.good rfl rb.out hns hps
+    rw [← hW2] at this
+    have ht' : ({ Wb with ctx := W1.ctx } : World).tick = rb.ds.tick := post.tick
+    rw [ht'] at this
+    simpa only [AI.act, e1] using this
+  have hlen : (A ++ [i'.act 1 []]).length = A.length + 1 := by simp
+  refine ⟨?_, ?_, ?_, e.ctx, ?_, ?_, WOK.ofEff ⟨post.wok.dests, post.wok.globals⟩ e, ?_, hns⟩
+  · rw [e.stage]
+    have : ({ Wb with ctx := W1.ctx } : World).stage = Wb.stage := rfl
+    rw [this, post.stage]
+    simp [List.append_assoc]
+  · intro h hh
+    rw [e.acts, List.getElem?_set_ne (by omega)]
+    have := post.frame h (by simp only [hA, hlen]; omega) (by omega)
+    simp only at this
+    rw [this, hA, List.getElem?_append_left hh]
+  · rw [e.acts, List.length_set]
+    have := post.grow
+    simp only [hA, hlen] at this
+    exact this
+  · rw [e.tick]; exact congrArg (· + 1) post.tick
+  · rw [e.nu]; exact post.nu
+  · simp only [withBlock, hrun, hout, rb]
+
+end Sys.Emit
+
 /-! ## The structured fragment (shape only) -/
+namespace Sys
 mutual
 /-- `inH` = inside an `except` handler (so `write_traceback()` has an exception), `inAct` = inside
 an action (so `add_success_fields` has a current action) -/
@@ -225,5 +602,4 @@ def Block.structured (inH inAct : Bool) : Block → Bool
   | .nil => true
   | .cons s r => s.structured inH inAct && r.structured inH inAct
 end
-
-end Sys.Emit
+end Sys
